@@ -17,9 +17,9 @@ MANIFEST = {
                  "+ one generated compiled program per run (interpolation vs explicit concatenation, value and evaluation trace)",
 }
 
-RULE = ("A: literal texts parsed by the real parser - exhaustive over the alphabet {a,$,{,}} up to length L (quick 6, thorough 8), every pair of 28 special pieces "
+RULE = ("A: literal texts parsed by the real parser - exhaustive over the alphabet {a,$,{,}} up to length L (quick 7, thorough 9), every pair of 28 special pieces "
         "($$, ${e}, lone $, unterminated ${, nested braces, bad expressions, multi-byte runes) alone and embedded, in \"...\" and raw literals, plus N random "
-        "concatenations of plain pieces (escapes, quotes, multi-byte) and special pieces; B: 250 (thorough 1500) valid literals in one compiled program, each with 0-6 "
+        "concatenations of plain pieces (escapes, quotes, multi-byte) and special pieces; B: 600 (thorough 3000) valid literals in one compiled program, each with 0-6 "
         "holes over int/int64/uint64/string/error/Stringer probe functions with an event trace, variables, arithmetic and nested calls, text pieces with escapes, "
         "$$, braces, raw strings, trailing $ and ${; a case = one literal; non-trivial = contains a $")
 
@@ -30,7 +30,7 @@ def run(ctx):
         "string forms: strconv.Itoa/FormatInt/FormatUint, Error(), String() as computed by the Go standard library on the harness side; floats excluded",
         "unquoting distributes over the split points (a `$` is never inside an escape sequence of a valid literal)",
     ]
-    common.standard(ctx, "GopModel.Props.C05", "c05", 3000, 60000, RULE, driver="drv_range")
+    common.standard(ctx, "GopModel.Props.C05", "c05", 20000, 300000, RULE, driver="drv_range")
 
 
 def replay(ctx, obj):
